@@ -237,6 +237,10 @@ def _gen_str(r, k, depth):
             alpha = alpha + "".join(r.choice(alpha) for _ in range(r.randint(1, 4)))
         s["alphabet"] = alpha
         rest.append("alphabet")
+        if r.random() < 0.06:
+            # not a str: refused by the DSL today (-> discarded); kept so that a tree which starts to
+            # accept it is explored too
+            s["alphabet_as"] = r.choice(("list", "tuple", "set", "frozenset"))
     if r.random() < k.p_constraint * 0.7:
         if n:
             a = r.randint(0, n)
@@ -294,6 +298,18 @@ def _gen_str_regex(r, k):
             # the one length form the DSL lets through in front of .regex(): an upper bound
             s["len"] = ["max", len(w) + r.choice((0, 1, 5))]
             s["order"] = ["len", "regex"]
+        elif r.random() < 0.08:
+            # combinations the DSL refuses today (-> DeclarationError -> discarded), in both orders; the
+            # witness satisfies all of them, so a tree that starts to accept one is explored too
+            extra = r.choice(("contains", "alphabet", "len"))
+            if extra == "contains":
+                a = r.randint(0, len(w))
+                s["contains"] = w[a:r.randint(a, len(w))]
+            elif extra == "alphabet":
+                s["alphabet"] = "".join(dict.fromkeys(w + "ab"))
+            else:
+                s["len"] = r.choice((["eq", len(w)], ["min", max(0, len(w) - 1)], ["range", 0, len(w) + 2]))
+            s["order"] = [extra, "regex"] if r.random() < 0.6 else ["regex", extra]
         return s, w
     return {"t": "str", "order": []}, "x"
 
@@ -749,7 +765,13 @@ def _build(spec, env):
             elif o == "len":
                 s = _apply_len(s, spec["len"])
             elif o == "alphabet":
-                s = s.alphabet(spec["alphabet"])
+                alpha = spec["alphabet"]
+                conv = spec.get("alphabet_as")
+                if conv:
+                    alpha = {"list": list, "tuple": tuple, "set": set, "frozenset": frozenset}[conv](alpha)
+                    if conv == "list" and env.retain:
+                        env.retain(alpha, "declared_list")
+                s = s.alphabet(alpha)
             elif o == "contains":
                 s = s.contains(spec["contains"])
             elif o == "regex":
